@@ -1332,6 +1332,8 @@ impl Arena {
           return Ok(allocated);
         }
         Err(current) => {
+          // we could not unlink the node we have marked: undo the mark, nobody else will finish the removal.
+          next_node.store(next_node_val, Ordering::Release);
           let (node_size, _) = decode_segment_node(current);
           if node_size == REMOVED_SEGMENT_NODE {
             // the current node is marked as removed, wait other thread to make progress.
@@ -1456,6 +1458,8 @@ impl Arena {
           return Ok(allocated);
         }
         Err(current) => {
+          // we could not unlink the head we have marked: undo the mark, nobody else will finish the removal.
+          head.store(head_node_size_and_next_node_offset, Ordering::Release);
           let (node_size, _) = decode_segment_node(current);
           if node_size == REMOVED_SEGMENT_NODE {
             // The current head is removed from the list, wait other thread to make progress.
@@ -1539,6 +1543,8 @@ impl Arena {
           continue;
         }
         Err(current) => {
+          // we could not unlink the head we have marked: undo the mark, nobody else will finish the removal.
+          head.store(head_node_size_and_next_node_offset, Ordering::Release);
           let (node_size, _) = decode_segment_node(current);
           if node_size == REMOVED_SEGMENT_NODE {
             // The current head is removed from the list, wait other thread to make progress.
